@@ -658,7 +658,9 @@ pub enum BlockKind {
     /// one repeated byte
     Constant(u8),
     /// the previous block again except for ONE byte (at a generated position): 0 complemented, 1 set to 00, 2 set to FF,
-    /// 3 incremented - two neighbouring blocks that agree up to a point and then differ by a chosen pair of values
+    /// 3 incremented - two neighbouring blocks that agree up to a point and then differ by a chosen pair of values;
+    /// 4.. TWO neighbouring bytes changed so that weak digests agree: 4 transposed, 5 both XORed with one value,
+    /// 6..10 (+1, -m) for m in 1, 31, 33, 37, 131 (sum / h*m+byte folds) - see `block_payload`
     NearCopy { at: u16, how: u8 },
     /// a prefix (length a multiple of 4, 2 or 1 by `align`) followed by the first `take` bytes of the Reed-Solomon
     /// remainder OF THAT PREFIX, then generated bytes: the running remainder's leading coefficients cancel against the
@@ -674,7 +676,7 @@ pub fn block_kind() -> BoxedStrategy<BlockKind> {
         1 => Just(BlockKind::CopyOfPrevious),
         2 => Just(BlockKind::GeneratorMultiple),
         1 => prop_oneof![2 => any::<u8>(), 1 => Just(0xFFu8), 1 => Just(0x01u8), 1 => Just(0x80u8)].prop_map(BlockKind::Constant),
-        3 => (any::<u16>(), 0u8..4).prop_map(|(at, how)| BlockKind::NearCopy { at, how }),
+        3 => (any::<u16>(), prop_oneof![4 => 0u8..4, 5 => 4u8..11]).prop_map(|(at, how)| BlockKind::NearCopy { at, how }),
         3 => (any::<u16>(), 0u8..3, prop_oneof![Just(1u8), Just(2), Just(3), Just(4), Just(8), Just(255)]).prop_map(|(prefix, align, take)| BlockKind::PrefixPlusRemainder { prefix, align, take }),
     ]
     .boxed()
@@ -741,6 +743,36 @@ pub fn block_payload(version: usize, level: Level, kinds: &[BlockKind], noise: &
                 } else {
                     (0..len).map(|i| next(i)).collect()
                 };
+                if how >= 4 && len >= 3 {
+                    // TWO neighbouring bytes changed so that a weak digest of the block (sum, xor, any commutative
+                    // fold, h*m+byte with a small odd multiplier m) keeps its value: the two blocks differ, every
+                    // such digest says they are equal
+                    let p = pick(at, len - 2);
+                    let (a, c) = (v[p], v[p + 1]);
+                    let lin = |m: u8| -> (u8, u8) {
+                        if a < 255 && c >= m {
+                            (a + 1, c - m)
+                        } else if a > 0 && c as u16 + m as u16 <= 255 {
+                            (a - 1, c + m)
+                        } else {
+                            (a.wrapping_add(1), c.wrapping_sub(m))
+                        }
+                    };
+                    match how {
+                        4 => v.swap(p, p + if a != c { 1 } else { 2 }),
+                        5 => {
+                            let x = 1 | next(p);
+                            v[p] ^= x;
+                            v[p + 1] ^= x;
+                        }
+                        _ => {
+                            let (na, nc) = lin([1u8, 31, 33, 37, 131][(how as usize - 6) % 5]);
+                            v[p] = na;
+                            v[p + 1] = nc;
+                        }
+                    }
+                    v
+                } else {
                 let p = pick(at, len);
                 v[p] = match how {
                     0 => !v[p],
@@ -749,6 +781,7 @@ pub fn block_payload(version: usize, level: Level, kinds: &[BlockKind], noise: &
                     _ => v[p].wrapping_add(1),
                 };
                 v
+                }
             }
             BlockKind::GeneratorMultiple => {
                 // q(x) of degree len - 1 - ec times g(x) (degree ec): a codeword polynomial of degree len - 1 ... the
@@ -771,6 +804,17 @@ pub fn block_payload(version: usize, level: Level, kinds: &[BlockKind], noise: &
             }
         };
         d[off..off + len].copy_from_slice(&block);
+        if b == 0 {
+            // the header (mode indicator 0100, count = full capacity) occupies the first bits of block 0: put the real
+            // values there so that a later (near-)copy of block 0 copies the codewords the symbol will really carry
+            let hv: u64 = (0b0100u64 << cci_bits(version, Mode::Byte)) | cap as u64;
+            for i in 0..header {
+                let bit = (hv >> (header - 1 - i)) & 1;
+                if i / 8 < len {
+                    d[i / 8] = (d[i / 8] & !(1 << (7 - i % 8))) | ((bit as u8) << (7 - i % 8));
+                }
+            }
+        }
         off += len;
     }
     // stream bits -> payload bits
